@@ -34,7 +34,7 @@ def plan(tier):
 
 def floors(tier):
     return {"min_decided": 400, "counters": {"nodes_checked": 3000, "duplicates_refused": 100, "universe_probes": 3000, "substrategy_columns": 500,
-                                             "lazy_eager_pairs": 150, "lazy_created_nodes": 200, "struct_universe_evals": 800, "dynamic_children": 100}, "max_undecided_frac": 0.3}
+                                             "lazy_eager_pairs": 150, "lazy_created_nodes": 200, "struct_universe_evals": 800, "dynamic_children": 100, "members_evals": 3000}, "max_undecided_frac": 0.3}
 
 
 # ------------------------------------------------------------------ struct
@@ -124,6 +124,26 @@ def preorder(name, kids, prefix=None):
     return out
 
 
+def _walk(node):
+    out = [node]
+    for c in (node.children or {}).values():
+        out += _walk(c)
+    return out
+
+
+def members_complete(root, cnt):
+    """`members` of every strategy equals a fresh walk of the children dicts below it (also after the tree grew since an earlier read)"""
+    for s in _walk(root):
+        if not isinstance(s, StrategyBase):
+            continue
+        common.bump(cnt, "members_evals")
+        got = s.members
+        exp = _walk(s)
+        if len(got) != len(exp) or {id(x) for x in got} != {id(x) for x in exp}:
+            return {"node": s.full_name, "members": [m.full_name for m in got], "subtree": [m.full_name for m in exp]}
+    return None
+
+
 def case_struct(cs):
     rng = random.Random(cs)
     cnt = {}
@@ -138,6 +158,9 @@ def case_struct(cs):
     bad = verify(root, "root", kids, root, root, "root", cnt)
     if bad:
         return common.result(common.VIOL, sig=[form, repr(kids)[:80]], nt=True, cnt=cnt, mech="c19_wiring", witness=dict(w, **bad))
+    bad = members_complete(root, cnt)
+    if bad:
+        return common.result(common.VIOL, sig=[form], nt=True, cnt=cnt, mech="c19_members", witness=dict(w, what="after construction", **bad))
     got = [m.full_name for m in root.members]
     if got != preorder("root", kids):
         return common.result(common.VIOL, sig=[form], nt=True, cnt=cnt, mech="c19_members", witness=dict(w, members=got, expected=preorder("root", kids)))
@@ -183,6 +206,9 @@ def case_struct(cs):
             s.allocate(500.0, child=nm)
             created += 1
     root.update(dts[0])
+    bad = members_complete(root, cnt)
+    if bad:
+        return common.result(common.VIOL, sig=[form], nt=True, cnt=cnt, mech="c19_members", witness=dict(w, what="after lazy creation", lazily_created=created, **bad))
     for m in root.members:
         common.bump(cnt, "nodes_checked")
         if m.integer_positions != integer:
@@ -204,6 +230,9 @@ def case_struct(cs):
         root.update(dts[1])
         par.allocate(1000.0, child="dyn")
         root.update(dts[1])
+        bad = members_complete(root, cnt)
+        if bad:
+            return common.result(common.VIOL, sig=[form], nt=True, cnt=cnt, mech="c19_members", witness=dict(w, what="after a child attached and funded after setup", **bad))
     # universe scoping after setup and a few updates (dates fed in order), for every strategy of the tree
     if root.now != dts[1]:
         root.update(dts[1])
